@@ -6,6 +6,8 @@ mod c10;
 mod c11;
 mod c12;
 mod c15;
+mod c20;
+mod sched;
 mod common;
 mod gen;
 mod layout;
@@ -32,6 +34,12 @@ fn real_main() -> i32 {
         "c11" => c11::main(&env),
         "c12" => c12::main(&env),
         "c15" => c15::main(&env),
+        "c20" => c20::main(&env),
+        "miri-c20" => c20::miri_main(&args[1..]),
+        "miri-noop" => {
+            println!("MIRI-NOOP ok");
+            0
+        }
         "replay" => {
             let Some(path) = args.get(1) else { return usage() };
             let Ok(text) = std::fs::read_to_string(path) else {
@@ -44,6 +52,7 @@ fn real_main() -> i32 {
             };
             match (doc["property"].as_str(), doc["engine"].as_str()) {
                 (Some("C15"), _) => c15::replay(&doc),
+                (Some("C20"), Some("threads")) => c20::replay(&doc),
                 (Some("C10"), _) => c10::replay(&doc),
                 (Some("C11"), _) => c11::replay(&doc),
                 (Some("C12"), Some("disk")) => c12::replay(&doc),
